@@ -11,6 +11,13 @@ from typing import Any, ClassVar, Dict, ForwardRef, List, Optional, Set, Type, c
 import wrapt
 from pydantic import Extra, root_validator
 from pydantic.fields import SHAPE_SINGLETON
+from pydantic.types import (
+    ConstrainedBytes,
+    ConstrainedDecimal,
+    ConstrainedFloat,
+    ConstrainedInt,
+    ConstrainedStr,
+)
 
 from ..plugin.metaclass import PluginMetaclassMixin, UndefVersion
 from ..util import cache, is_public_name
@@ -503,6 +510,33 @@ def _keeps_field_constraints(fld, parent_fld) -> bool:
     )
 
 
+_CONSTRAINED_TYPES = (
+    ConstrainedStr,
+    ConstrainedBytes,
+    ConstrainedInt,
+    ConstrainedFloat,
+    ConstrainedDecimal,
+)
+
+
+def _retyped_by_constraints(fld, parent_fld) -> bool:
+    """Return whether constraints given with `Field(...)` replaced the type of the field.
+
+    If e.g. `max_length` is given for a field with a subclass of str as type,
+    pydantic validates with a generic constrained string type instead.
+    """
+    if fld is None or parent_fld is None:
+        return False
+    typ, parent_typ = fld.type_, parent_fld.type_
+    if not isinstance(typ, type) or not isinstance(parent_typ, type):
+        return False
+    if not issubclass(typ, _CONSTRAINED_TYPES):
+        return False
+    return not issubclass(parent_typ, _CONSTRAINED_TYPES) and not issubclass(
+        typ, parent_typ
+    )
+
+
 def detect_field_overrides(schema: Type[MetadataSchema]):
     anns = get_annotations(schema)
     base_hints = cast(Any, schema._base_typehints)
@@ -538,9 +572,12 @@ def check_overrides(schema: Type[MetadataSchema]):
         if retyped := _retyped_without_hint(schema, fname):
             hint = fld.outer_type_  # the type hint is still the inherited one
         same_constrs = _keeps_field_constraints(fld, parent_fld)
+        if retyped_constr := _retyped_by_constraints(fld, parent_fld):
+            hint = fld.outer_type_  # the type that is actually validated with
         if (
             turned_optional
             or retyped
+            or retyped_constr
             or not same_constrs
             or not is_subtype(hint, parent_hint)
         ):
